@@ -42,6 +42,7 @@ pub fn generate(prop: &str, thorough: bool, verif_seed: u64, idx: u64) -> Value 
         "C11" if idx % 5 == 4 => serde_json::to_value(crate::scen_life::generate_owner_race(rs)).unwrap(),
         "C11" => serde_json::to_value(crate::scen_life::generate(rs, thorough)).unwrap(),
         "C12" if idx % 8 == 5 => serde_json::to_value(crate::scen_conc::generate_stringbuf(rs, thorough)).unwrap(),
+        "C12" if idx % 8 == 1 => serde_json::to_value(crate::scen_conc::generate_call_race(rs)).unwrap(),
         "C12" => serde_json::to_value(crate::scen_conc::generate(rs, thorough, idx % 4 == 3)).unwrap(),
         _ => panic!("unknown property {prop}"),
     }
